@@ -2,13 +2,16 @@
    Nothing but the property theorems.  [unfold_cfg f try seed ocaps] / [emit_cfg freq f try ocaps]: one
    goroutine without input (Pipe/Stages.v plan_unfold / plan_emit, mirroring pipe.Unfold / pipe.Emit), any
    buffer capacities [ocaps]; the consumer's pace and the cancel point are part of the execution.
-   Partial: "a consumer that keeps up receives one value per tick" (an upper bound on delivery times under
-   maximal progress) is NOT proved here; it is checked on every explored virtual-time schedule by the
-   correspondence oracle.  Proved: the exact sequence, the lower bound on availability times (for ANY clock
-   advance policy), closure after cancel. *)
+   Proved: the exact sequence; the lower bound on availability times for ANY clock advance policy
+   (C11_emit_not_early); the upper bound "a consumer that keeps up receives one value per tick" under MAXIMAL
+   PROGRESS (C11_emit_keeps_up and corollaries: the clock moves only in settled states - no internal step
+   enabled, nothing receivable on the value / error channel - and never past a pending timer; no cancel.
+   Pipe/PoolMaxProgress.v; this is the clock policy of the trace checker, C11_checker_clock_policy);
+   closure after cancel. *)
 From Coq Require Import List ZArith NArith.
 From Golem Require Import Base.Lists Pipe.Pool Pipe.Stages Pipe.PoolSteps Pipe.PoolSafe Pipe.PoolLive Pipe.PoolSeq
-     Pipe.PoolStages Pipe.PoolGen Pipe.PoolEmitTime Pipe.PoolGenCancel.
+     Pipe.PoolStages Pipe.PoolGen Pipe.PoolEmitTime Pipe.PoolGenCancel Pipe.PoolMaxProgress Pipe.PoolEmitPace.
+From Golem Require Check.Pool Pipe.PoolMaxProgressCheck.
 Import ListNotations.
 Open Scope Z_scope.
 
@@ -35,6 +38,101 @@ Theorem C11_emit_not_early : forall (freq : N) (f : Z -> res) (try : bool) (ocap
    <= now s)%N.
 Proof. exact emit_not_early. Qed.
 Print Assumptions C11_emit_not_early.
+
+(* ---- pacing, upper bound: MAXIMAL PROGRESS with a consumer that keeps up ----
+   [mp_reachable c all_outs no_env s] ([all_outs]: every output has a consumer; [no_env]: no further obligation of the
+   environment): s is reached by an execution of [step] in which every clock event [EAdvance t]
+   happens in a [settled] state (= [quiescent]: no step of the goroutine enabled, and [no_receive_on]: the consumers
+   of the value channel out 0 and of the error channel out 1 have taken everything available) and t does not
+   exceed a pending timer deadline; no ECancel ([mp_allowed]).
+   [rounds s] = loop iterations entered; [emit_calls s] = applications of f made (the application of iteration i
+   follows its time.Sleep); [emit_sleeping s n]: the goroutine is in the time.Sleep of iteration n, due at (n+1)*freq. *)
+
+(* (a)+(b): whenever the clock may move, Emit has made n calls with n*freq <= now < (n+1)*freq - call i (from 0)
+   happens exactly at time (i+1)*freq - and EVERY result of these calls has been received: no gap.  Or (fail-fast
+   only) it returned at its first failing index n, at time (n+1)*freq, everything received, both channels closed.
+   For all capacities. *)
+Theorem C11_emit_keeps_up : forall (freq : N) (f : Z -> res) (try : bool) (ocaps : list nat) (s : state),
+  mp_reachable (emit_cfg freq f try ocaps) all_outs no_env s -> settled (emit_cfg freq f try ocaps) all_outs s ->
+  (exists n : nat, emit_sleeping freq f try s n /\ emit_calls s = n /\
+             (N.of_nat n * freq <= now s < (N.of_nat n + 1) * freq)%N /\
+             delivered s 0 = ok_vals f (zrange 0 n) /\ delivered s 1 = err_vals f (zrange 0 n) /\
+             (try = false -> existsb (is_err f) (zrange 0 n) = false))
+  \/
+  (exists (n : nat) (e : Z), wc (ws s 0) = WDone /\ emit_calls s = S n /\ try = false /\
+               existsb (is_err f) (zrange 0 n) = false /\ f (Z.of_nat n) = Err e /\
+               delivered s 0 = ok_vals f (zrange 0 n) /\ delivered s 1 = [e] /\
+               ((N.of_nat n + 1) * freq <= now s)%N /\
+               cclosed (outs s 0) = true /\ cclosed (outs s 1) = true).
+Proof. exact emit_keeps_up. Qed.
+Print Assumptions C11_emit_keeps_up.
+
+(* the invariant behind it, for ALL maximal-progress states: where the goroutine stands <-> what time it is
+   (top of the loop / after the sleep: now = rounds*freq; before the sleep: now = (rounds-1)*freq; in the sleep:
+   deadline rounds*freq and (rounds-1)*freq <= now <= deadline; returned: rounds*freq <= now) *)
+Theorem C11_emit_pace_invariant : forall (freq : N) (f : Z -> res) (try : bool) (ocaps : list nat) (s : state),
+  mp_reachable (emit_cfg freq f try ocaps) all_outs no_env s -> pinv freq f try s.
+Proof. exact pinv_mp_reachable. Qed.
+Print Assumptions C11_emit_pace_invariant.
+
+(* in the words of the property: at the instant k*freq, once its activity has settled, exactly k calls have been
+   made and the results of all of them have been received: value f(i) at tick i+1, one per tick *)
+Theorem C11_emit_one_per_tick : forall (freq : N) (f : Z -> res) (try : bool) (ocaps : list nat) (s : state) (k : nat),
+  mp_reachable (emit_cfg freq f try ocaps) all_outs no_env s -> settled (emit_cfg freq f try ocaps) all_outs s ->
+  (0 < freq)%N -> now s = (N.of_nat k * freq)%N ->
+  (emit_calls s = k /\ delivered s 0 = ok_vals f (zrange 0 k) /\ delivered s 1 = err_vals f (zrange 0 k))
+  \/
+  (try = false /\ exists (n : nat) (e : Z), (n < k)%nat /\ existsb (is_err f) (zrange 0 n) = false /\ f (Z.of_nat n) = Err e /\
+                              emit_calls s = S n /\ delivered s 0 = ok_vals f (zrange 0 n) /\ delivered s 1 = [e]).
+Proof. exact emit_one_per_tick. Qed.
+Print Assumptions C11_emit_one_per_tick.
+
+Theorem C11_emit_one_per_tick_try : forall (freq : N) (f : Z -> res) (try : bool) (ocaps : list nat) (s : state) (k : nat),
+  try = true ->
+  mp_reachable (emit_cfg freq f try ocaps) all_outs no_env s -> settled (emit_cfg freq f try ocaps) all_outs s ->
+  (0 < freq)%N -> now s = (N.of_nat k * freq)%N ->
+  emit_calls s = k /\ delivered s 0 = ok_vals f (zrange 0 k) /\ delivered s 1 = err_vals f (zrange 0 k).
+Proof. exact emit_one_per_tick_try. Qed.
+Print Assumptions C11_emit_one_per_tick_try.
+
+(* while Emit runs, the number of results received (values + errors) IS the number of elapsed ticks *)
+Theorem C11_emit_rate : forall (freq : N) (f : Z -> res) (try : bool) (ocaps : list nat) (s : state),
+  mp_reachable (emit_cfg freq f try ocaps) all_outs no_env s -> settled (emit_cfg freq f try ocaps) all_outs s ->
+  (0 < freq)%N -> wc (ws s 0) <> WDone ->
+  N.of_nat (length (delivered s 0) + length (delivered s 1)) = (now s / freq)%N.
+Proof. exact emit_rate. Qed.
+Print Assumptions C11_emit_rate.
+
+(* non-vacuity: a concrete maximal-progress run (Try, frequency 3, unbuffered values, f(1) fails) reaches a settled
+   state at time 9 with 3 calls made; a fail-fast run reaches the returned state; the policy refuses to jump over
+   a deadline and to move the clock while a value waits in the buffer *)
+Theorem C11_emit_keeps_up_nonvacuous :
+  exists s, mp_reachable (emit_cfg 3 pace_ex_f true [0%nat; 1%nat]) all_outs no_env s /\
+            settled (emit_cfg 3 pace_ex_f true [0%nat; 1%nat]) all_outs s /\
+            now s = 9%N /\ emit_calls s = 3%nat /\ delivered s 0 = [0; 20] /\ delivered s 1 = [7].
+Proof. exact emit_mp_example. Qed.
+Print Assumptions C11_emit_keeps_up_nonvacuous.
+
+Theorem C11_emit_keeps_up_nonvacuous_failfast :
+  exists s, mp_reachable (emit_cfg 3 pace_ex_f false [0%nat; 1%nat]) all_outs no_env s /\
+            settled (emit_cfg 3 pace_ex_f false [0%nat; 1%nat]) all_outs s /\
+            now s = 100%N /\ wc (ws s 0) = WDone /\ emit_calls s = 2%nat /\ delivered s 0 = [0] /\ delivered s 1 = [7].
+Proof. exact emit_mp_example_failfast. Qed.
+Print Assumptions C11_emit_keeps_up_nonvacuous_failfast.
+
+Theorem C11_mp_policy_bites :
+  emit_mp_run 3 pace_ex_f true [0%nat; 1%nat] [EW 0 false; EW 0 false; EAdvance 4] = None /\
+  emit_mp_run 3 pace_ex_f true [1%nat; 1%nat]
+    [EW 0 false; EW 0 false; EAdvance 3; EW 0 false; EW 0 false; EW 0 false; EW 0 false; EW 0 false; EAdvance 6] = None.
+Proof. exact (conj emit_mp_no_jump emit_mp_no_lag). Qed.
+Print Assumptions C11_mp_policy_bites.
+
+(* the same policy as the trace checker's: Check/Pool.v advances the clock only from states with no internal
+   successor - exactly the quiescent ones - and never past the earliest deadline *)
+Theorem C11_checker_clock_policy : forall (c : cfg) (s : state),
+  panicked s = false -> (Golem.Check.Pool.succs c s = [] <-> quiescent c s).
+Proof. exact PoolMaxProgressCheck.succs_nil_quiescent. Qed.
+Print Assumptions C11_checker_clock_policy.
 
 (* after cancel: in a state without enabled step (and, for Emit, no pending sleep) the generator has returned
    and both channels are closed - no receive needed *)
